@@ -105,8 +105,7 @@ Example C05_unused_view_example :
   map hv (threads (run (fr_sch ++ [1; 1; 1; 1; 1]) (init fr_scripts))) = [Some (1, true); Some (7, true)].
 Proof.
   split; [vm_compute; reflexivity|]. split; [|vm_compute; reflexivity].
-  intros th p Hin Hc. vm_compute in Hin. destruct Hin as [<-|[<-|[]]]; vm_compute in Hc; [|discriminate].
-  injection Hc as <-. reflexivity.
+  apply not_in_useb_spec. vm_compute. reflexivity.
 Qed.
 
 (* ------------------------------------------------------------------ a batch object shared by goroutines (round 2) *)
